@@ -40,6 +40,7 @@ type Task struct {
 	// set while the task is parked in the scheduler
 	parked bool
 	memHit bool
+	allocd int64 // bytes requested through guarded make calls since the last heap check
 	// crit > 0: the task holds a lock or runs inside sync.Once.Do; it is not parked
 	crit int
 }
@@ -106,6 +107,7 @@ func (t *Task) BeginOp(budget int64) {
 	t.over = 0
 	t.overHits = nil
 	t.memHit = false
+	t.allocd = 0
 }
 
 // P is called at every function entry and loop iteration of the code under test.
@@ -208,6 +210,23 @@ func A[N Integer](site int32, n N, elem int64) N {
 		if v < 0 || v > AllocLimit/elem {
 			t.Budget = 0
 			panic(&Abort{Kind: "alloc", Site: site, Detail: fmt.Sprintf("make of %d elements x %d bytes", uint64(n), elem)})
+		}
+		// many allocations that are each below the limit: look at the live heap every
+		// 256 MiB requested (steps alone do not see memory that is filled by copying)
+		t.allocd += v * elem
+		if t.Budget > 0 && t.allocd >= 256<<20 && !t.memHit {
+			t.allocd = 0
+			var ms runtime.MemStats
+			runtime.ReadMemStats(&ms)
+			if ms.HeapAlloc > HeapLimit {
+				runtime.GC()
+				runtime.ReadMemStats(&ms)
+				if ms.HeapAlloc > HeapLimit {
+					t.memHit = true
+					t.Budget = 0
+					panic(&Abort{Kind: "mem", Site: site, Detail: fmt.Sprintf("live heap %d MiB after %d-byte allocations at this site", ms.HeapAlloc>>20, v*elem)})
+				}
+			}
 		}
 	}
 	return n
